@@ -6,7 +6,11 @@ single-table onto their parent's table) or concrete (``polymorphic_union``, with
 per intermediate class as documented for multi-level concrete) inheritance, with random
 abstract intermediates (``polymorphic_abstract`` or simply unpopulated), random
 ``polymorphic_load`` ("inline" / "selectin") per subclass or ``with_polymorphic="*"`` on
-the base, and a random population written with plain Core inserts.  Every class of the
+the base, string or integer discriminators that include the falsy identities "" and 0,
+and a random population written with plain Core inserts.  After the first round a
+further single-table subclass is mapped late (hierarchy already configured and used),
+its rows are inserted, and every class is queried again - first with the compiled cache
+untouched, then (``@late`` mechanisms) with freshly compiled statements.  Every class of the
 tree is queried with every applicable polymorphic loading option:
 
   default select | with_polymorphic(K, "*") | with_polymorphic(K, [subset]) |
@@ -48,6 +52,7 @@ META = {
     "soft_s": {"quick": 45, "thorough": 600},
     "exhaustive": {"quick": False, "thorough": False},
     "require": ["queries", "objects_checked", "attrs_checked", "subclass_objects_checked", "get_checks",
+                "queries_after_late_subclass", "falsy_identity_hierarchies",
                 "hier_joined", "hier_single", "hier_mixed", "hier_concrete"],
     "assumptions": ["the population table written by plain INSERTs is the ground truth"],
 }
@@ -213,25 +218,30 @@ def one_hierarchy(ctx, sa, orm, R, kind, hseed, warnings, random):
     engine = sa.create_engine("sqlite://")
     R.write_hier_population(h, pop, engine)
     ctx.count("hier_" + kind)
+    if any(n.ident in (0, "") and n.parent is not None for n in h.nodes):
+        ctx.count("falsy_identity_hierarchies")
     origin = {"kind": kind, "hseed": hseed, "scale": ctx.pick({"quick": 1, "thorough": 2}), "shape": shape_key(h), "knobs": h.knobs}
-    try:
+    def query_round(phase):
+        tag = "" if phase == "initial" else "@late"
         for node in h.nodes:
             exp = expected_rows(h, pop, node)
             sub_rows = sum(1 for r in exp if r["cls"] != node.name)
             nontrivial = sub_rows >= 1 or len(exp) >= 2
             for option in options_for(h, node, hr):
                 if not ctx.budget_ok():
-                    return
+                    return False
                 pick = hr.randrange(1, 1 << 8)
-                witness = dict(origin, cls=node.name, option=option, pick=pick)
-                ctx.seen("options", option)
-                ctx.case({"shape": origin["shape"], "kind": kind, "knobs": h.knobs, "cls": node.name, "opt": option},
+                label = option + tag
+                witness = dict(origin, cls=node.name, option=option, pick=pick, phase=phase,
+                               late=[(n.name, n.parent.name) for n in h.nodes if n.name.startswith("L")])
+                ctx.seen("options", label)
+                ctx.case({"shape": origin["shape"], "kind": kind, "knobs": h.knobs, "cls": node.name, "opt": label},
                          nontrivial=nontrivial)
                 with warnings.catch_warnings():
                     warnings.simplefilter("ignore")
                     with orm.Session(engine) as s:
                         if option == "get":
-                            check_get(ctx, sa, orm, h, pop, node, s, witness)
+                            check_get(ctx, sa, orm, h, pop, node, s, witness, label)
                             continue
                         try:
                             objs, exp_override = run_option(sa, orm, h, pop, node, option, s, pick)
@@ -246,21 +256,63 @@ def one_hierarchy(ctx, sa, orm, R, kind, hseed, warnings, random):
                                               f"ArgumentError because {selectin_nodes} use polymorphic_load='selectin': {str(e)[:200]}",
                                               dict(witness, error=str(e)[:500]))
                                 continue
-                            ctx.violation(f"query-raises-{type(e).__name__}:{kind}/{option}",
-                                          f"query at {node.name} ({option}) raised {type(e).__name__}: {str(e)[:300]}",
+                            ctx.violation(f"query-raises-{type(e).__name__}:{kind}/{label}",
+                                          f"query at {node.name} ({label}) raised {type(e).__name__}: {str(e)[:300]}",
                                           dict(witness, error=str(e)[:500]))
                             continue
                         ctx.count("queries")
-                        check_objects(ctx, h, pop, node, option, objs, witness, exp_override)
-            if len(ctx.samples) < 3 and nontrivial:
+                        if phase != "initial":
+                            ctx.count("queries_after_late_subclass")
+                        check_objects(ctx, h, pop, node, label, objs, witness, exp_override)
+            if len(ctx.samples) < 3 and nontrivial and phase == "initial":
                 ctx.sample({"kind": kind, "shape": origin["shape"], "class": node.name,
                             "expected": [(r["cls"], r["id"]) for r in exp]})
+        return True
+
+    try:
+        if not query_round("initial"):
+            return
+        # a further single-table subclass is mapped after the hierarchy was configured
+        # and used; its rows arrive through plain INSERTs; every class is queried again
+        if kind != "concrete" and hr.random() < 0.7 and ctx.budget_ok():
+            late = R.add_late_subclass(h, hr)
+            rows = R.gen_late_rows(h, late, pop, hr)
+            pop["rows"].extend(rows)
+            R.write_hier_rows(h, rows, engine)
+            ctx.count("late_subclasses")
+            origin["shape"] = shape_key(h)
+            # (a) same statement shapes as before, compiled cache untouched
+            stale = []
+            with warnings.catch_warnings():
+                warnings.simplefilter("ignore")
+                for node in h.nodes:
+                    with orm.Session(engine) as s:
+                        got = sorted(o.id for o in s.scalars(sa.select(node.cls)))
+                    exp_ids = sorted(r["id"] for r in expected_rows(h, pop, node))
+                    if got != exp_ids:
+                        stale.append((node.name, got, exp_ids))
+                engine.clear_compiled_cache()
+                still = []
+                for name, got, exp_ids in stale:
+                    with orm.Session(engine) as s:
+                        if sorted(o.id for o in s.scalars(sa.select(h.node(name).cls))) != exp_ids:
+                            still.append(name)
+            ctx.count("late_cached_statement_checks", len(h.nodes))
+            cache_only = [x for x in stale if x[0] not in still]
+            if cache_only:
+                ctx.violation("late-mapped-subclass-stale-compiled-cache",
+                              f"after mapping {late.name}({late.parent.name}) a fresh select() of "
+                              f"{[x[0] for x in cache_only]} is served from the compiled cache with the old "
+                              f"discriminator IN list: {cache_only[:2]}; correct after engine.clear_compiled_cache()",
+                              dict(origin, late=[late.name, late.parent.name], stale=cache_only))
+            # (b) statements compiled afresh
+            query_round("late")
     finally:
         engine.dispose()
         h.dispose()
 
 
-def check_get(ctx, sa, orm, h, pop, node, s, witness):
+def check_get(ctx, sa, orm, h, pop, node, s, witness, label="get"):
     names = {n.name for n in node.descendants()}
     for r in pop["rows"]:
         if h.kind == "concrete" and r["cls"] not in names:
@@ -268,20 +320,20 @@ def check_get(ctx, sa, orm, h, pop, node, s, witness):
         try:
             o = s.get(node.cls, r["id"])
         except Exception as e:
-            ctx.violation(f"get-raises-{type(e).__name__}:{h.kind}/get",
+            ctx.violation(f"get-raises-{type(e).__name__}:{h.kind}/{label}",
                           f"Session.get({node.name}, {r['id']}) raised {type(e).__name__}: {str(e)[:200]}",
                           dict(witness, id=r["id"]))
             continue
         ctx.count("get_checks")
         if r["cls"] in names:
             if o is None:
-                ctx.violation(f"get-misses-row:{h.kind}/get",
+                ctx.violation(f"get-misses-row:{h.kind}/{label}",
                               f"Session.get({node.name}, {r['id']}) is None but the row is a {r['cls']}",
                               dict(witness, id=r["id"]))
             else:
-                check_objects(ctx, h, pop, node, "get", [o], dict(witness, id=r["id"]), expect=[r])
+                check_objects(ctx, h, pop, node, label, [o], dict(witness, id=r["id"]), expect=[r])
         elif o is not None:
-            ctx.violation(f"get-returns-foreign-class:{h.kind}/get",
+            ctx.violation(f"get-returns-foreign-class:{h.kind}/{label}",
                           f"Session.get({node.name}, {r['id']}) returned {type(o).__name__} for a row generated as "
                           f"{r['cls']}, which is not {node.name} or a subclass", dict(witness, id=r["id"]))
 
